@@ -40,6 +40,8 @@ COMPONENTS = {
 
 
 VERIF_DIR = os.path.dirname(os.path.dirname(os.path.abspath(__file__)))
+# the repository under test (overridden only by the scratch copies that tools/scratch.sh makes)
+REPO_DIR = os.environ.get("TZSIM_REPO", "/repo")
 
 
 def env():
@@ -87,7 +89,7 @@ def build_tzsim(verif, profile="release"):
 
 
 def tz_rs_builds(verif):
-    rc, out = sh(["cargo", "build", "--offline", "--target-dir", os.path.join(verif, "target", "repo-probe")], cwd="/repo")
+    rc, out = sh(["cargo", "build", "--offline", "--target-dir", os.path.join(verif, "target", "repo-probe")], cwd=REPO_DIR)
     return rc == 0, out
 
 
@@ -471,7 +473,7 @@ def main(verif, argv):
         steps.append((["cargo", "+nightly", "miri", "run", "--offline", "--target-dir", os.path.join(verif, "target", "miri"), "--", "0", "1", "1"], os.path.join(verif, "tzsim-miri"), {"MIRIFLAGS": "-Zmiri-seed=0"}))
         for guard in ("off", "on"):
             for fl in ([], ["--features", "alloc"], ["--features", "std"]):
-                steps.append((["cargo", "build", "--offline", "--no-default-features"] + fl + ["--target-dir", os.path.join(verif, "target", f"repo-{guard}")], "/repo", {"RUSTFLAGS": "--cfg tz_rs_verif"} if guard == "on" else None))
+                steps.append((["cargo", "build", "--offline", "--no-default-features"] + fl + ["--target-dir", os.path.join(verif, "target", f"repo-{guard}")], REPO_DIR, {"RUSTFLAGS": "--cfg tz_rs_verif"} if guard == "on" else None))
         for argv2, cwd, ee in steps:
             rc, out = sh(argv2, cwd=cwd, extra_env=ee, timeout=3600)
             if rc != 0:
